@@ -46,7 +46,7 @@ Step(e) ==
                               /\ e.ev.path = tc[e.ev.id].path
     [] e.a = "StreamNew"   -> StreamNew(e.ev.id, e.ev.st, e.ev.tgt, e.ev.src)
     [] e.a = "SentConnect" -> SentConnect(e.ev.id, e.ev.circ) /\ e.ev.tgt = ts[e.ev.id].tgt
-    [] e.a = "Remap"       -> Remap(e.ev.id) /\ e.ev.circ = ts[e.ev.id].circ
+    [] e.a = "Remap"       -> Remap(e.ev.id, e.ev.tgt) /\ e.ev.circ = ts[e.ev.id].circ
     [] e.a = "Succeeded"   -> Succeeded(e.ev.id) /\ e.ev.circ = ts[e.ev.id].circ /\ e.ev.tgt = ts[e.ev.id].tgt
     [] e.a = "Detached"    -> Detached(e.ev.id) /\ e.ev.circ = ts[e.ev.id].circ
     [] e.a = "StreamGone"  -> StreamGone(e.ev.id, e.ev.st) /\ e.ev.circ = ts[e.ev.id].circ
